@@ -79,7 +79,9 @@ def oracle_api(ctx: Ctx, case):
     E, T, B, kind = case["E"], case["T"], case["B"], case["obs_kind"]
     N = max(E, 1) * T
     buf = id_buffer(E, T, kind)
-    flat = buf.flatten_axes()
+    axes = case.get("axes")
+    axes = tuple(axes) if isinstance(axes, list) else axes
+    flat = buf.flatten_axes(axes)
     ctx.check(np.asarray(flat.rewards).shape == (N,), "C09/flatten/shape", shape=list(np.asarray(flat.rewards).shape))
     seen = []
     for i in range(N):
@@ -106,8 +108,8 @@ def oracle_api(ctx: Ctx, case):
     g = flat.gather(jnp.asarray(idx1[0]))
     for i in range(B):
         ids, ok = row_ids(g, i)
-        ctx.check(len(ids) == 1 and ok and min(ids) == int(idx1[0][i]), "C09/gather/row-not-the-indexed-sample", row=i, ids=sorted(ids), index=int(idx1[0][i]))
-    bt = buf.batches(B, key=k1)
+        ctx.check(len(ids) == 1 and ok and min(ids) == seen[int(idx1[0][i])], "C09/gather/row-not-the-indexed-sample", row=i, ids=sorted(ids), index=int(idx1[0][i]))
+    bt = buf.batches(B, key=k1, batch_axes=axes)
     used = []
     for b in range(nb):
         one = jax.tree.map(lambda x: x[b], bt)
@@ -123,7 +125,8 @@ def oracle_api(ctx: Ctx, case):
         ctx.check(len(ids) == 1 and ok, "C09/sample/fields-of-a-row-from-different-samples", row=i, ids=sorted(ids))
         sids.append(min(ids))
     ctx.check(len(set(sids)) == B, "C09/sample/duplicate-in-batch", sampled=sids)
-    ctx.count(nontrivial=(N % B != 0) or (E > 1 and kind in ("dict", "tuple")), classes=[kind, f"E={E}"] + ["ragged"] * (N % B != 0), key=[E, T, B, kind])
+    swapped = axes in ((1, 0), (-1, -2))
+    ctx.count(nontrivial=(N % B != 0) or (E > 1 and kind in ("dict", "tuple")) or swapped, classes=[kind, f"E={E}"] + ["ragged"] * (N % B != 0) + ["axes-swapped"] * swapped, key=[E, T, B, kind, str(axes)])
 
 
 # ----------------------------------------------------------------------------- end-to-end through PPO.train
@@ -241,7 +244,9 @@ def api_cases(draw):
     E = draw(st.sampled_from([0, 1, 2, 3, 5]))
     T = draw(st.integers(1, 24))
     N = max(E, 1) * T
-    return {"E": E, "T": T, "B": draw(st.integers(1, N)), "obs_kind": draw(st.sampled_from(["box", "discrete", "dict", "tuple"])), "key": draw(st.integers(0, 2**31 - 2))}
+    # every spelling of "all batch axes" the API accepts, in either order (the order only decides the row order)
+    axes = draw(st.sampled_from([None, [0, 1], [1, 0], [-1, -2], [-2, -1]] if E else [None, 0, -1, [0]]))
+    return {"E": E, "T": T, "axes": axes, "B": draw(st.integers(1, N)), "obs_kind": draw(st.sampled_from(["box", "discrete", "dict", "tuple"])), "key": draw(st.integers(0, 2**31 - 2))}
 
 
 def train_configs(ctx, n):
